@@ -22,7 +22,7 @@ deriving Repr, DecidableEq
 
 def G.empty : G := ⟨[], [], [], none⟩
 
-inductive Err | duplicate | badEdge | notPresent | notReady | cycle | notWip
+inductive Err | duplicate | badEdge | notPresent | notReady | cycle | notWip | reused | notClosed
 deriving Repr, DecidableEq
 
 /-- `not predecessors[n]` inside `sorting`: every connection into `n` starts at a node that is already
@@ -52,6 +52,9 @@ abbrev Res := Except Err Unit × G
 def addNodes (g : G) (new : List Id) : Res :=
   let all := g.nodes ++ new
   if ¬ all.Nodup then (.error .duplicate, g)
+  -- MODEL RESTRICTION (not in the code, never generated): a name is not used again while a removed node of
+  -- that name is still marked for removal or still occurs in a connection
+  else if new.any (fun n => g.wip.contains n || g.edges.any (fun e => e.1 == n || e.2 == n)) then (.error .reused, g)
   else
     let g1 := { g with nodes := all }
     match g.sorted with
@@ -108,9 +111,65 @@ def readSorted (g : G) : Except Err (List Id) × G :=
     | some l => (.ok l, { g with sorted := some l })
     | none => (.error .cycle, { g with sorted := none })
 
+/-- `remove_previous_connections` for one node marked by `remove_nodes` -/
+def removePrevConnections1 (g : G) (n : Id) : Res :=
+  if ¬ g.wip.contains n then (.error .notWip, { g with edges := g.edges.filter (fun e => e.2 != n) })
+  else (.ok (), { g with edges := g.edges.filter (fun e => e.2 != n), wip := g.wip.erase n })
+
+def removePrevConnections : G → List Id → Res
+  | g, [] => (.ok (), g)
+  | g, n :: ns => match removePrevConnections1 g n with
+    | (.ok (), g') => removePrevConnections g' ns
+    | r => r
+
+/-- `successors[a]` derived from the connection list (with multiplicity, in insertion order) -/
+def succOf (g : G) (a : Id) : List Id := (g.edges.filter (fun e => e.1 == a)).map (·.2)
+
+/-- `_checking_successors_nodes`: depth-first listing of everything reachable from `a`, with repetitions.
+    `fuel` bounds the depth (the number of nodes suffices on an acyclic graph). -/
+def dfs (g : G) : Nat → Id → List Id
+  | 0, _ => []
+  | fuel + 1, a => (succOf g a).flatMap (fun b => b :: dfs g fuel b)
+
+/-- the `to_remove` list of `remove_successors_nodes`: first occurrences, still present in `nodes` -/
+def toRemove (g : G) (n : Id) : List Id :=
+  ((dfs g (g.nodes.length + g.wip.length + 1) n).eraseDups).filter (fun d => g.nodes.contains d)
+
+/-- every present successor of a listed node is listed (what a complete traversal guarantees) -/
+def succClosed (g : G) (ds : List Id) : Bool :=
+  g.edges.all (fun e => !(ds.contains e.1) || !(g.nodes.contains e.2) || ds.contains e.2)
+
+/-- `remove_successors_nodes(n)` (after the repair): drop `n`'s connections, mark all successors for removal
+    in one `remove_nodes` call, then remove their incoming connections.  `.notClosed` is a model-only outcome
+    for an incomplete traversal (fuel exhausted); it does not occur on acyclic graphs. -/
+def removeSuccessors (g : G) (n : Id) : Res :=
+  let ds := toRemove g n
+  match removeConnections g [n] with
+  | (.error e, g1) => (.error e, g1)
+  | (.ok (), g1) =>
+    if ¬ succClosed g1 ds then (.error .notClosed, g1) else
+    match removeNodes g1 ds false with
+    | (.error e, g2) => (.error e, g2)
+    | (.ok (), g2) => removePrevConnections g2 ds
+
+/-- the pre-repair `remove_successors_nodes` (D71), kept as documentation only: each successor is removed and
+    its incoming connections dropped before the next one is looked at -/
+def removeSuccessorsOld (g : G) (n : Id) : Res :=
+  let ds := toRemove g n
+  match removeConnections g [n] with
+  | (.error e, g1) => (.error e, g1)
+  | (.ok (), g1) =>
+    ds.foldl (fun (r : Res) d => match r with
+      | (.ok (), gi) =>
+        if ¬ gi.nodes.contains d then (.ok (), gi) else
+        (match removeNodes gi [d] false with
+         | (.ok (), gj) => removePrevConnections1 gj d
+         | r' => r')
+      | r' => r') (.ok (), g1)
+
 inductive Op
   | addNodes (ns : List Id) | addEdges (es : List (Id × Id)) | removeNodes (ns : List Id)
-  | removeConnections (ns : List Id) | read
+  | removeConnections (ns : List Id) | read | removeSuccessors (n : Id)
 deriving Repr, DecidableEq
 
 def step (g : G) : Op → G
@@ -119,6 +178,7 @@ def step (g : G) : Op → G
   | .removeNodes ns => (removeNodes g ns).2
   | .removeConnections ns => (removeConnections g ns).2
   | .read => (readSorted g).2
+  | .removeSuccessors n => (removeSuccessors g n).2
 
 def run (ops : List Op) : G := ops.foldl step G.empty
 
@@ -133,6 +193,7 @@ def stepOk (g : G) : Op → Option G
   | .removeNodes ns => match removeNodes g ns with | (.ok _, g') => some g' | _ => none
   | .removeConnections ns => match removeConnections g ns with | (.ok _, g') => some g' | _ => none
   | .read => match readSorted g with | (.ok _, g') => some g' | _ => none
+  | .removeSuccessors n => match removeSuccessors g n with | (.ok _, g') => some g' | _ => none
 
 /-- a history of calls none of which raised, from the empty graph -/
 def runOk : List Op → G → Option G
